@@ -12,12 +12,12 @@
 #include <string.h>
 #include <stdlib.h>
 
-enum { Z_FILL = 1, Z_SORT, Z_SEARCH, Z_FIND, Z_REVERSE, Z_ADVSORT };
+enum { Z_FILL = 1, Z_SORT, Z_SEARCH, Z_FIND, Z_REVERSE, Z_ADVSORT, Z_VSEARCH, Z_VREVERSE };
 
 static const char *z_opname(int k)
 {
     switch (k) {
-    case Z_FILL: return "fill"; case Z_SORT: return "sort"; case Z_SEARCH: return "search"; case Z_FIND: return "find"; case Z_REVERSE: return "reverse"; case Z_ADVSORT: return "adversary-sort";
+    case Z_FILL: return "fill"; case Z_SORT: return "sort"; case Z_SEARCH: return "search"; case Z_FIND: return "find"; case Z_REVERSE: return "reverse"; case Z_ADVSORT: return "adversary-sort"; case Z_VSEARCH: return "search"; case Z_VREVERSE: return "reverse";
     }
     return "?";
 }
@@ -117,6 +117,31 @@ static void swap_cb(void *a, void *b, void *t, size_t len)
 
 static int cmp_bytes(const void *a, const void *b) { return memcmp(a, b, es); }
 
+/* "virtual" arrays: search and reverse only hand element addresses to the callbacks, so an array of 2^30 ... 2^40
+ * elements needs no memory at all: element i "holds" the value i, the comparison function derives it from the address,
+ * and the swap function records which pair it was asked to exchange. Nothing ever dereferences an element. */
+static uintptr_t vbase; static uint64_t vcount, vprobe_val, vswaps, vbad_at; static int vbad;
+static int vcmp(const void *a, const void *b, void *priv)
+{
+    uintptr_t q = (uintptr_t)b; uint64_t idx;
+    if (a != priv || a != (const void *)&vprobe_val) { if (!vbad) { vbad = 1; vbad_at = ncmp; } return 0; }
+    if (++ncmp > 200) { if (!vbad) { vbad = 2; vbad_at = ncmp; } return 0; }                 /* a binary search makes <= 64 + slack probes */
+    if (q < vbase || q >= vbase + vcount * es || (q - vbase) % es) { if (!vbad) { vbad = 3; vbad_at = (uint64_t)q; } return 0; }
+    idx = (q - vbase) / es;
+    return sim_cmp((vprobe_val > idx) - (vprobe_val < idx));
+}
+static void vswap(void *a, void *b, void *t, size_t len)
+{
+    uintptr_t x = (uintptr_t)a, y = (uintptr_t)b;
+    /* the k-th exchange must be (element k, element count-1-k) */
+    if (vbad) return;
+    if (len != es || t != (void *)scratch) { vbad = 4; vbad_at = vswaps; return; }
+    if (x != vbase + vswaps * es || y != vbase + (vcount - 1 - vswaps) * es) {
+        if (!(y == vbase + vswaps * es && x == vbase + (vcount - 1 - vswaps) * es)) { vbad = 5; vbad_at = vswaps; return; }
+    }
+    vswaps++;
+}
+
 static void check_same_multiset(const char *what)
 {
     static unsigned char *x, *y; static size_t cap;
@@ -136,7 +161,7 @@ static void z_exec(const plan_t *p)
     simrand_reset(p->cfg[CF_JUNK] * 131 + p->cfg[CF_RAND], (int)(p->cfg[CF_RAND] & 1) ? RS_STICKY : RS_UNIFORM);
     es = (size_t)p->cfg[CF_ES]; if (es < 1) es = 1; if (es > MAXES) es = MAXES;
     kb = es >= 4 ? 2 : 1;
-    n = 0; sorted = 0; arr = NULL; adv_active = 0;
+    n = 0; sorted = 0; arr = NULL; adv_active = 0; vcount = 0;
     reentrant = (int)(p->cfg[CF_RAND] >> 1 & 7) == 0;
     { int q; for (q = 0; q < 32; q++) auxarr[q] = (unsigned char)q; }
     if (reentrant) PROBE("comparator_reenters_library");
@@ -191,7 +216,11 @@ static void z_exec(const plan_t *p)
             int ai = (int)(o->a[0] % 8), custom_swap = (int)(o->a[1] & 1);
             if (arr == NULL) { EVT("skip", 0, 0, 0); break; }
             /* first-element pivot on (nearly) sorted input is quadratic by design: not on very large arrays */
-            if (n > 8000 && (ai == 0) && sorted) ai = 3;
+            if (n > 8000 && ai == 0) {
+                size_t up = 0, down = 0;
+                for (i = 1; i < n; i++) { unsigned x = key_of(arr + (i - 1) * es), y = key_of(arr + i * es); up += x <= y; down += x >= y; }
+                if (sorted || up > n - n / 16 || down > n - n / 16) ai = 3;
+            }
             algoname = names[ai]; g_cur_ctx = algoname;
             cmpcap = 64 * (uint64_t)(n + 16) * (uint64_t)(n + 16);
             memcpy(ref, arr, n * es);
@@ -247,6 +276,44 @@ static void z_exec(const plan_t *p)
             EVT("advsort", ai, n, ncmp);
             break;
         }
+        case Z_VSEARCH: {
+            static const uint64_t counts[] = { ((uint64_t)1 << 30) + 3, ((uint64_t)1 << 31) - 1, (uint64_t)1 << 31, ((uint64_t)1 << 31) + 1, ((uint64_t)1 << 32) + 5,
+                                               ((uint64_t)1 << 33) + 1, (uint64_t)1 << 40, 3000000000ull, 1500000000ull, ((uint64_t)1 << 62) / 24 };
+            uint64_t target; int present;
+            vcount = counts[o->a[0] % 10]; vbase = (uintptr_t)0x10000000u * 16;       /* never dereferenced */
+            switch (o->a[1] % 6) {
+            case 0: target = 0; break; case 1: target = vcount - 1; break; case 2: target = vcount / 2 + 1; break;
+            case 3: target = vcount - 1 - o->a[2] % 1000; break; case 4: target = vcount + o->a[2] % 1000; break;     /* absent: above every element */
+            default: target = o->a[2] % vcount; break;
+            }
+            present = target < vcount;
+            vprobe_val = target; vbad = 0; ncmp = 0;
+            g_cur_ctx = vcount > ((uint64_t)1 << 31) ? "virtual-above-2^31" : "virtual-above-2^30";
+            TRY(sres = cstl_raw_array_search((const void *)vbase, (size_t)vcount, es, &vprobe_val, vcmp, &vprobe_val));
+            if (g_aborted) VIOL("abort", "search aborted");
+            if (vbad == 3) VIOL("compare_foreign_pointer", "binary search over %llu elements of %zu bytes handed the comparison function the address %#llx, which is not an element", (unsigned long long)vcount, es, (unsigned long long)vbad_at);
+            if (vbad == 2) VIOL("no_termination", "binary search over %llu elements made more than 200 comparisons", (unsigned long long)vcount);
+            if (vbad) VIOL("compare_arguments", "binary search did not hand the comparison function the probe and the caller's private pointer");
+            if (present && (uint64_t)sres != target) VIOL("present", "binary search over %llu elements returned %zd for the value held by element %llu", (unsigned long long)vcount, sres, (unsigned long long)target);
+            if (!present && sres != -1) VIOL("absent", "binary search over %llu elements returned %zd for a value that is not in the array", (unsigned long long)vcount, sres);
+            PROBE("virtual_search"); if (vcount > ((uint64_t)1 << 31)) PROBE("virtual_search_above_2^31");
+            EVT("vsearch", vcount, target, (uint64_t)sres);
+            break;
+        }
+        case Z_VREVERSE: {
+            /* costs count/2 callback invocations: sizes just above 2^31 only, and rarely */
+            static const uint64_t counts[] = { ((uint64_t)1 << 31) + 1, ((uint64_t)1 << 31) + 2, ((uint64_t)1 << 31) + 5, 40000000 };
+            vcount = counts[o->a[0] % 4]; vbase = (uintptr_t)0x10000000u * 16; vswaps = 0; vbad = 0;
+            g_cur_ctx = vcount > ((uint64_t)1 << 31) ? "virtual-above-2^31" : "virtual-large";
+            TRY(cstl_raw_array_reverse((void *)vbase, (size_t)vcount, es, vswap, scratch));
+            if (g_aborted) VIOL("abort", "reverse aborted");
+            if (vbad == 4) VIOL("swap_len", "reverse handed the swap function a wrong length or scratch element");
+            if (vbad) VIOL("not_mirrored", "reverse of %llu elements: exchange number %llu is not (element %llu, element %llu)", (unsigned long long)vcount, (unsigned long long)vbad_at, (unsigned long long)vbad_at, (unsigned long long)(vcount - 1 - vbad_at));
+            if (vswaps != vcount / 2) VIOL("not_mirrored", "reverse of %llu elements made %llu exchanges, a mirror image needs %llu", (unsigned long long)vcount, (unsigned long long)vswaps, (unsigned long long)(vcount / 2));
+            PROBE("virtual_reverse");
+            EVT("vreverse", vcount, vswaps, 0);
+            break;
+        }
         case Z_SEARCH: case Z_FIND: {
             unsigned key; int exists = 0; size_t first = 0;
             if (arr == NULL) { EVT("skip", 0, 0, 0); break; }
@@ -288,7 +355,7 @@ static void z_exec(const plan_t *p)
     }
     free(ref); ref = NULL; adv_active = 0;
     simheap_audit("C11", "sort-end");
-    g_run.nontrivial = n >= 2;
+    g_run.nontrivial = n >= 2 || vcount > 0;
 }
 
 static void z_gen(prng_t *r, int mode, plan_t *p)
@@ -297,7 +364,6 @@ static void z_gen(prng_t *r, int mode, plan_t *p)
     int huge = prng_chance(r, 1, 400);
     int large = !huge && prng_chance(r, 1, 20), small = !large && !huge && prng_chance(r, 1, 4);
     int rounds = huge ? 1 : 1 + (int)prng_below(r, 3), q, j;
-    (void)mode;
     p->cfg[CF_ES] = (uint64_t)sizes[prng_below(r, sizeof sizes / sizeof sizes[0])];
     p->cfg[CF_JUNK] = 1 + prng_below(r, 254);
     p->cfg[CF_RAND] = prng_below(r, 1000);
@@ -316,6 +382,13 @@ static void z_gen(prng_t *r, int mode, plan_t *p)
             for (k2 = 0; k2 < nq; k2++) { op_t *f = plan_add(p, prng_chance(r, 3, 4) ? Z_SEARCH : Z_FIND); f->a[0] = prng_next(r) >> 8; f->a[1] = prng_below(r, 2); }
             if (prng_chance(r, 1, 3)) { op_t *v = plan_add(p, Z_REVERSE); v->a[0] = prng_below(r, 2); }     /* the next sort sees reversed input */
         }
+    }
+    if (mode == 111) {          /* the virtual-array batch */
+        int nq = 4 + (int)prng_below(r, 8);
+        p->nops = 0;
+        for (j = 0; j < nq; j++) { op_t *s = plan_add(p, Z_VSEARCH); s->a[0] = prng_below(r, 10); s->a[1] = prng_below(r, 6); s->a[2] = prng_next(r) >> 8; }
+        if (prng_chance(r, 1, 20)) { op_t *s = plan_add(p, Z_VREVERSE); s->a[0] = prng_below(r, 4); }
+        return;
     }
     if (!huge && prng_chance(r, 1, 12)) {
         op_t *s = plan_add(p, Z_ADVSORT);
